@@ -50,6 +50,11 @@ def strategy_(draw, tier):
         env["XDG_DATA_HOME"] = [v for v in vols if v != "/home"][0] + "/xdg" \
             if [v for v in vols if v != "/home"] else home + "/xdg"
     fb = draw(st.sampled_from([None, None, "1", "0"]))
+    # "xdev" scenario: the home fallback is enabled both ways and the volume trash directories of
+    # every non-home volume are unusable, so entries there are trashed by cross-device copy+delete
+    xdev = bool(vols) and draw(st.integers(0, 6)) == 0
+    if xdev:
+        fb = "1"
     if fb is not None:
         env["TRASH_ENABLE_HOME_FALLBACK"] = fb
     workdirs = [home + "/w", "/data"] + [v + "/d" for v in vols if v != "/home"]
@@ -65,6 +70,8 @@ def strategy_(draw, tier):
     for v in ["/"] + vols:
         ts = draw(st.sampled_from(["absent"] * 4 + gen.TOP_STATES))
         as_ = draw(st.sampled_from(["absent"] * 4 + gen.ALT_STATES))
+        if xdev and v != oracle.volume_of(vols, home):
+            ts, as_ = draw(st.sampled_from(["absent", "nonsticky", "file"])), "file"
         nodes += gen.topdir_nodes(v, uid, ts, as_, draw(st.booleans()))
     n = draw(st.integers(1, 3))
     cwd = draw(st.sampled_from(workdirs + [home, "/"]))
@@ -163,6 +170,8 @@ def strategy_(draw, tier):
             else:
                 nodes += pair[:1]
     opts = list(draw(st.sampled_from(OPTSETS)))
+    if xdev:
+        opts = ["--home-fallback"] + draw(st.sampled_from([[], ["-v"]]))
     if "--trash-dir" in opts:
         opts = ["--trash-dir", draw(st.sampled_from([home + "/mytrash", "/data/mytrash"] +
                                                      [v + "/mytrash" for v in vols]))]
@@ -172,7 +181,7 @@ def strategy_(draw, tier):
     spec = {"vols": vols, "nodes": nodes, "env": env, "uid": uid, "cwd": cwd,
             "now": "2021-03-04T05:06:07", "umask": draw(st.sampled_from([0o022, 0o077, 0]))}
     return {"spec": spec, "opts": opts, "files": files, "meta": metas, "stdin": stdin,
-            "layout": lay}
+            "layout": lay, "xdev": xdev}
 
 
 def strategy(tier):
@@ -279,10 +288,11 @@ def run_case(case):
         out.classes.append("state:" + s)
     out.classes.append("opts:" + optclass(case["opts"]))
     out.classes.append("layout:" + case["layout"])
+    out.classes.append("xdev_fallback:%s" % case.get("xdev", False))
     out.classes.append("exit:%d" % res.code)
     if nontrivial:
         out.key = [[m["kind"], m["spelling"], m["name_class"], s] for (a, s), m in
-                   zip(states, case["meta"])] + [case["layout"], optclass(case["opts"])]
+                   zip(states, case["meta"])] + [case["layout"], optclass(case["opts"]), case.get("xdev", False)]
         out.sample = {"cwd": spec["cwd"], "argv": case["opts"] + case["files"],
                       "layout": case["layout"], "states": states, "exit": res.code}
     return out
